@@ -58,6 +58,16 @@ def check(run, info, n_valid, n_mutants, tag):
     res = vlib.run_impl([{"id": i, "op": "parse", "text": hexs(t)} for i, t in enumerate(texts)], run.workdir, per_case_timeout=30)
     model = vlib.run_model([("stmts", i, [hexs(t)]) for i, t in enumerate(texts)], run.workdir) if info.get("extract_ok") else {}
     stats = {"valid": 0, "mutant-accepted": 0, "mutant-rejected": 0, "model-scope": 0, "model-fuel": 0}
+    # how many of the generated spellings satisfy the decidable hypothesis of C01_spelled_text_is_faithful (its conclusion is what
+    # the three-way comparison below checks for all of them)
+    tok_ok = vlib.run_model([("textok", i, [hexs(t)]) for i, (_, t) in enumerate(valid)], run.workdir) if info.get("extract_ok") else {}
+    for i, (_, t) in enumerate(valid):
+        r = tok_ok.get(str(i))
+        if r and r[0] in ("0", "1"):
+            run.count(("textok", t), False, "text-check:%s:%s" % ("passes" if r[0] == "1" else "does-not-pass", tag))
+            if len(r) > 1 and r[1] != "1" and "?" not in t:
+                run.violation("correspondence", "the tokens the lexer model reads from a generated body do not spell its text: %r" % t[:100],
+                              {"input": {"text": t}}, no_input=True)
     for i, t in enumerate(texts):
         got = impl_tree(res[i])
         m = model.get(str(i))
